@@ -42,7 +42,7 @@ def res_term(val):
 
 def run(ctx):
     import numpy as np
-    ctx.translate(['Gen_Time', 'Gen_Demog'])
+    ctx.translate(['Gen_Time', 'Gen_Crude'])
     proved = ctx.build_props('C06')
     try:
         import starsim as ss
@@ -350,7 +350,7 @@ def oracle(ctx, ss, np, rng):
                 # Births divides by the population at recording time, which the run does not keep: compare the ratio reported / (count / n_alive / (units * own step)) with 1 loosely
                 own = cnt[1:] / alive[1:] / (units * mdt); ratio = np.nanmedian(rep[1:] / np.where(own > 0, own, np.nan))
                 if not (0.8 < ratio < 1.25): offrate.append((type(mod).__name__, simkw.get('unit'), simkw.get('dt'), modkw, 'median ratio', float(ratio), 1.0))
-    bad = ctx.coq_mismatches('crude', 'Model.Prelude Model.L3_Units Gen.Gen_Time Gen.Gen_Demog Model.L3_TimePar', 'Q * Q * Q * Q * Q * Q', cterms,
+    bad = ctx.coq_mismatches('crude', 'Model.Prelude Model.L3_Units Gen.Gen_Time Gen.Gen_Crude Model.L3_TimePar', 'Q * Q * Q * Q * Q * Q', cterms,
                              "From Coq Require Import String.\nDefinition own_step : bool := match find (fun x => String.eqb (fst x) \"Deaths.finalize\") crude_rate_divisor_gen with Some (_, b) => b | None => false end.\n"
                              "Definition ok (c : Q * Q * Q * Q * Q * Q) : bool := let '(cnt, al, un, sdt, mdt, r) := c in Qclose ((1 # 1000000000) * (1 + r)) (crude_rate_reported own_step cnt al un sdt mdt) r.", shard=300)
     for j in bad[:3]: ctx.broke('correspondence', 'a reported crude mortality rate differs from crude_rate_reported (count / alive / (units * the step length named by the generated crude_rate_divisor_gen))', repr(cmeta[j]))
